@@ -73,13 +73,10 @@ def deep_equal(seq1: Iterable[Any],
             elif value1 is None:
                 return True
             elif isinstance(value1, XPathMap):
-                assert isinstance(value2, XPathMap)
-                return value1 == value2
+                return isinstance(value2, XPathMap) and value1 == value2
             elif isinstance(value1, XPathArray):
-                assert isinstance(value2, XPathArray)
-                return value1 == value2
+                return isinstance(value2, XPathArray) and value1 == value2
             elif isinstance(value1, XPathNode):
-                assert isinstance(value2, XPathNode)
                 if value1.__class__ != value2.__class__:
                     return False
                 elif isinstance(value1, etree_node_types):
